@@ -35,7 +35,7 @@ func c20Lens(thorough bool) []int {
 	for i := 0; i <= 300; i++ {
 		ls = append(ls, i)
 	}
-	for _, l := range []int{511, 512, 513, 1023, 1024, 4095, 4096, 4097, 32768, 65536, 1 << 20} {
+	for _, l := range []int{511, 512, 513, 1023, 1024, 4095, 4096, 4097, 32768, 32769, 40001, 65536, 70001, 131071, 131072, 131077, 204803, 1 << 20, 1<<20 + 4099} {
 		ls = append(ls, l)
 	}
 	return ls
